@@ -7,17 +7,26 @@ open CaddyModel.C14
 #print axioms recovery_after_interrupted_creation
 #print axioms root_stable
 #print axioms intermediate_stable_until_renewal
+-- renewal at run time (maintenance pass of a running process)
+#print axioms tick_keeps_invariant
+#print axioms reachable_invariant_with_ticks
+#print axioms recovery_with_runtime_renewal_partial
+#print axioms synced_after_uninterrupted_startup
 -- config autosave
 #print axioms autosave_always_complete
 #print axioms autosave_latest_after_return
 #print axioms autosave_only_if_persist_enabled
 #print axioms autosave_only_accepted_configs
+#print axioms autosave_recovers_after_interrupted_autosave
 -- the calculus everything above rests on
 #print axioms wp_sound
 #print axioms wpn_sound
 -- the old operation orders violate the property (non-vacuity), and what Start is needed for
 #print axioms recovery_old_order_fails
 #print axioms autosave_old_style_fails
+#print axioms autosave_excl_wedged
+#print axioms autosave_excl_fails
+#print axioms recovery_with_runtime_renewal_full_fails
 #print axioms provision_alone_after_interrupted_renewal_mismatched
 #print axioms ca_write_order_matches_source
 #print axioms autosave_program_matches_source
